@@ -10,13 +10,17 @@ def run(run):
     cases, n = run.gen("mc/MC_ZonedArith.tla", "gen/Gen_C14.cfg", workers=8, name="zoned", timeout=1500)
     run.replay(b, cases, label="zoned")
     run.negative_control_replay(b, cases, corrupt_first(lambda e: e["op"] == "Zoned.startOfDay" and e["out"]["kind"] == "ok", lambda e: e["out"].__setitem__("val", e["out"]["val"] + 3600)), limit=200000)
+    # Duration round / total / compare relative to a zoned date-time (ZonedRound: NudgeToZonedTime, zoned brackets, bubbling)
+    cases2, n2 = run.gen("mc/MC_ZonedRound.tla", "gen/Gen_C14_zround_q.cfg" if q else "gen/Gen_C14_zround.cfg", workers=8, name="zround", timeout=1500)
+    run.replay(b, cases2, label="zround")
     tr = run.record(b, "c14", 8000 if q else 120000)
     run.validate("trace/Trace_Zone.tla", "trace/Trace_Zone.cfg", tr)
     small = head_of(run, tr, 300, "c14.small.trace.ndjson")
     run.negative_control_trace("trace/Trace_Zone.tla", "trace/Trace_Zone.cfg", small,
                                corrupt_first(lambda e: e.get("op") in ("Zoned.until", "Zoned.since") and e["out"]["kind"] == "ok", lambda e: bump_big(e["out"]["val"]["h"])))
     run.cov["rule"] = ("replay: every (zone, instant, duration) add/subtract, (zone, instant pair, largest unit) until/since, start-of-day and hours-in-day transition of the bounded ZonedArith instance "
-                      "(+1 h DST pair, -1 h, 30 min, 24 h skip, 24 h repeat, fixed offsets; instants on a grid around each transition); traces: seeded random synthetic zones")
+                      "(+1 h DST pair, -1 h, 30 min, 24 h skip, 24 h repeat, fixed offsets; instants on a grid around each transition), and every (zone, instant, duration, option set) "
+                      "Duration.round / total / compare relative to a zoned date-time of the bounded ZonedRound instance; traces: seeded random synthetic zones, all of these operations")
     run.cov["distinct_nontrivial"] = run.cov["evaluations"]
     run.assumptions += ["synthetic TimeZoneProvider (harness/src/synth_tz.rs); durations with whole seconds only (the sub-second part .123456789 of every instant must be preserved)",
                         "the inverse law add(until) is stated for receivers that are the compatible reading of their own wall time (Temporal itself does not round-trip from the second occurrence of a repeated time)",
